@@ -276,3 +276,67 @@ def Deriv.plain : Deriv → Bool
   | _ => true
 
 end PycModel.Spec
+
+namespace PycModel.Spec
+open PycModel
+
+/-! ## declaration specifiers in any order (C99 6.7: "the specifiers may appear in any order") -/
+
+inductive Spc where
+  | storage (s : String)
+  | func (s : String)
+  | qual (s : String)
+  | ty (s : String)
+  deriving Repr, Inhabited, DecidableEq
+
+def Spc.tok : Spc → String
+  | .storage s => s | .func s => s | .qual s => s | .ty s => s
+
+def typeSets : List (List String) :=
+  [["int"], ["unsigned", "int"], ["long", "unsigned"], ["long", "long", "int"], ["short"],
+   ["unsigned", "char"], ["double"], ["long", "double"], ["_Bool"], ["signed"], ["float", "_Complex"]]
+
+def storages : List (Option String) :=
+  [none, some "static", some "extern", some "typedef", some "register", some "auto", some "_Thread_local"]
+
+/-- all permutations of a list -/
+def perms {α} : List α → List (List α)
+  | [] => [[]]
+  | x :: xs => (perms xs).flatMap fun p => (List.range (p.length + 1)).map fun i => p.take i ++ x :: p.drop i
+
+/-- `specs x ;` (or `specs x ( void ) ;` when a function specifier is present; `register`/`auto`
+only make sense in a block) and the documented AST: qualifiers, storage classes, function specifiers
+and type specifier keywords each collected in order of appearance -/
+def specCase (specs : List Spc) : String × String :=
+  let quals := specs.filterMap fun s => match s with | .qual q => some q | _ => none
+  let stor := specs.filterMap fun s => match s with | .storage q => some q | _ => none
+  let fspec := specs.filterMap fun s => match s with | .func q => some q | _ => none
+  let tys := specs.filterMap fun s => match s with | .ty q => some q | _ => none
+  let isFn := !fspec.isEmpty
+  let inBlock := stor.contains "register" || stor.contains "auto"
+  let dtoks := if isFn then ["x", "(", "void", ")"] else ["x"]
+  let inner := typeDecl (some "x") quals (identType tys)
+  let ty := if isFn then nd .FuncDecl [paramsVal .void, inner] else inner
+  let node := if stor.contains "typedef" then
+      nd .Typedef [.str "x", strsV quals, strsV stor, ty]
+    else nd .Decl [.str "x", strsV quals, strsV [], strsV stor, strsV fspec, ty, .none, .none]
+  let text := " ".intercalate (specs.map Spc.tok ++ dtoks ++ [";"])
+  if inBlock then
+    ("void f ( ) { " ++ text ++ " }", (nd .FileAST [.list [fdef "f" (identType ["void"]) .none [node]]]).dump false)
+  else (text, (nd .FileAST [.list [node]]).dump false)
+
+def randSpecs (s : Nat) : List Spc × Nat :=
+  let tys := pick typeSets s
+  let s1 := lcg s
+  let st := pick storages s1
+  let s2 := lcg s1
+  let qs : List String := pick [[], [], ["const"], ["volatile"], ["const", "volatile"], ["_Atomic"]] s2
+  let s3 := lcg s2
+  let fs : List String := if st == some "typedef" || st == some "register" || st == some "auto" then []
+    else pick [[], [], ["inline"], ["_Noreturn"]] s3
+  let s4 := lcg s3
+  let all : List Spc := tys.map .ty ++ (match st with | some x => [.storage x] | none => []) ++ qs.map .qual ++ fs.map .func
+  let ps := perms all
+  (pick ps s4, lcg s4)
+
+end PycModel.Spec
